@@ -336,7 +336,9 @@ var c19StayWords = []string{"a", "ab", "active", "hello world", "a: b", "#x", "-
 var c19Yaml11 = map[string]bool{"y": true, "Y": true, "yes": true, "Yes": true, "YES": true, "on": true, "On": true, "ON": true,
 	"n": true, "N": true, "no": true, "No": true, "NO": true, "off": true, "Off": true, "OFF": true}
 var c19RetypedWords = []string{"123", "-7", "0", "true", "false", "null", "~", "1.5", "1e3", "+1", "True", "NULL"}
-var c19Patterns = []string{"^[a-z]+$", "^[0-9]{3}$", "^a.*b$"}
+// patterns of the RE2 / ECMA-262 common subset, incl. non-capturing groups, optional literal parentheses,
+// escaped metacharacters, alternation and a quote: `pattern` is published verbatim whatever it contains
+var c19Patterns = []string{"^[a-z]+$", "^[0-9]{3}$", "^a.*b$", "^(?:[A-Z]{2}-)?[0-9]{4}$", `^\(?[0-9]{3}\)?[0-9]{4}$`, "^(a|b)+$", `^\d+\.\d+$`, `^"q"$`, "^[^/]+$"}
 var c19Formats = []string{"email", "uuid", "uri", "hostname", "ip", "ipv4", "ipv6"}
 var c19FloatPool = []string{"0", "0.5", "-2.25", "0.1", "1", "100", "1e21", "1e-7", "3.4028235e38", "16777216", "-0.3", "2.5", "1e10", "-1e6"}
 
